@@ -372,7 +372,7 @@ def fallback_guards(chk, F, fn, fk):
     lets = {}
     for n in hir_walk(h["body"]):
         if n.get("sk") == "let" and (n.get("pat") or {}).get("pk") == "bind" and n.get("init"):
-            lets[n["pat"]["lid"]] = n["init"]
+            lets[(n["pat"].get("name"), n["pat"]["lid"])] = n["init"]
 
     def fields_of(e, depth=0):
         """Fields f of a disjunction of `parsed.f.is_some()`; None when the expression has any other shape."""
@@ -382,8 +382,8 @@ def fallback_guards(chk, F, fn, fk):
         if e.get("k") == "MethodCall" and e["name"] == "is_some" and e["recv"].get("k") == "Field" and str(e["recv"].get("of_ty", "")).endswith("format::parsed::Parsed"):
             return {e["recv"]["name"]}
         ln = H.local_name(e) if e.get("k") == "Path" else None
-        if ln and ln[1] in lets and depth < 3:
-            return fields_of(lets[ln[1]], depth + 1)
+        if ln and (ln[0], ln[1]) in lets and depth < 3:
+            return fields_of(lets[(ln[0], ln[1])], depth + 1)
         if e.get("k") in ("Paren", "DropTemps") and e.get("e"):
             return fields_of(e["e"], depth)
         # the disjunction has been given a name: `has_date_fields(&parsed)`, a private function of this crate whose body is one
@@ -408,6 +408,11 @@ def fallback_guards(chk, F, fn, fk):
             if g is not None and g["loc"]["file"] == h["loc"]["file"] and g["body"] not in bodies:
                 bodies.append(g["body"])
     structs = [n for b in bodies for n in hir_walk(b) if n.get("k") == "Struct"]
+    # the names given to the two disjunctions may live in that function too
+    for b in bodies[1:]:
+        for n in hir_walk(b):
+            if n.get("sk") == "let" and (n.get("pat") or {}).get("pk") == "bind" and n.get("init"):
+                lets.setdefault((n["pat"].get("name"), n["pat"]["lid"]), n["init"])
     _fields_of0 = fields_of
 
     def fields_of(e, depth=0):      # noqa: F811
